@@ -177,6 +177,7 @@ theorem Shape_local (F : Flags) (o : Obs) (x : Act) (ev : Ev) (y : Act) (eff : E
       · exact Bare_generic
       · exact Bare_typed _
     · intro n h; unfold promptRes at h; split at h <;> cases h
+  | waitCycle k hp hr hk hcyc => exact plain _ (Bare_typed _) (fun _ h => by cases h)
   | _ => exact ⟨hS.out, hS.callRes⟩
 
 /-! ### the global invariant -/
